@@ -13,8 +13,12 @@ PARAM = ('parametricity: generic code (Segment<T>, Piecewise<T>, PiecewiseEvalua
 Z3W = 'tools/z3wrap.sh changes one Z3 heuristic option (smt.arith.nl) for Verus queries; unsat answers are as sound as before'
 
 
-def H(name, module, bound=None, complete=False, functions=(), extra=()):
-    return {'name': name, 'module': module, 'bound': bound, 'complete': complete, 'functions': list(functions), 'extra': list(extra)}
+NOT_APPLICABLE = {}
+
+
+def H(name, module, bound=None, complete=False, functions=(), extra=(), mustpanic=False):
+    return {'name': name, 'module': module, 'bound': bound, 'complete': complete, 'functions': list(functions), 'extra': list(extra),
+            'mustpanic': mustpanic or name.endswith('_mustpanic')}
 
 
 def hs(prefix, module, ns, bound_fmt, functions, complete=False):
@@ -104,6 +108,149 @@ PROPS['C08'] = {
                     'Segment/Piecewise::derivative wiring is decided by Kani harnesses when present (bounded in the number of pieces)',
                     'bit-level lane assertions ([bits]) are secondary: their failure alone is reported only with a concrete failing input'],
 }
+
+
+def kset(name, harnesses, jobs=8, timeout=1800):
+    return {'set': name, 'jobs': jobs, 'timeout': timeout, 'harnesses': harnesses}
+
+
+PWD = ['src/piecewise.rs: impl HasDerivative for Piecewise<T> :: derivative', 'src/piecewise.rs: impl HasDerivative for Segment<T> :: derivative']
+PROPS['C08']['kani'] = {
+    'quick': [kset('c08', hs('c08_pwderiv_n', 'piecewise', [1, 2, 3, 4], 'pieces N = {n}', PWD) + [H('c15_segment_ops', 'piecewise', None, True, PWD[1:])])],
+    'thorough': [kset('c08', hs('c08_pwderiv_n', 'piecewise', [1, 2, 3, 4], 'pieces N = {n}', PWD) + [H('c15_segment_ops', 'piecewise', None, True, PWD[1:])])],
+}
+PROPS['C08']['level'] = 'other'
+PROPS['C08']['assumptions'] += [PARAM, 'bounded: Piecewise::derivative wiring checked for N <= 4 pieces (Kani, loops unwound)']
+PROPS['C08']['explanation'] += (' Piecewise/Segment::derivative wiring: Kani harness with recording OpTag pieces: same number of pieces, same order, '
+                                'every breakpoint bit-identical, each piece differentiated exactly once (N <= 4; Segment level loop-free, complete).')
+
+INT_FNS = ['src/piecewise.rs: Segment::integral_iter_ref', 'src/piecewise.rs: Segment::integral_iter',
+           'src/piecewise.rs: impl HasIntegral for Piecewise<T> :: integral', 'src/piecewise.rs: impl HasIntegral for Piecewise<T> :: indefinite',
+           'src/piecewise.rs: impl HasIntegral for Segment<T> :: integral']
+
+
+def c11_set(ns):
+    out = []
+    for pre, f in (('c11_integral_n', INT_FNS[2:3]), ('c11_iter_ref_n', INT_FNS[0:1]), ('c11_iter_n', INT_FNS[1:2]), ('c11_indefinite_n', INT_FNS[3:4])):
+        out += hs(pre, 'piecewise', ns, 'pieces N = {n}', f)
+    return out + [H('c11_empty', 'piecewise', None, True, INT_FNS[2:4])]
+
+
+PROPS['C11'] = {
+    'verus': [],
+    'kani': {'quick': [kset('c11', c11_set([1, 2, 3]))], 'thorough': [kset('c11', c11_set([1, 2, 3, 4]), timeout=6000)]},
+    'probe': False,
+    'level': 'other',
+    'explanation': 'Kani harnesses on the real integral_iter, integral_iter_ref, Piecewise::integral and Piecewise::indefinite with recording pieces '
+                   '(STag -> ITag{id,k}, evaluate logs its argument): same number/order of pieces and bit-identical breakpoints, piece 0 anchored at the '
+                   'given knot (indefinite: untranslated), piece i anchored at (end_{i-1}, F_{i-1}(end_{i-1})) so adjacent pieces agree at every interior '
+                   'breakpoint; by-value and by-reference iterators satisfy the same contract; empty input gives empty output.',
+    'assumptions': [PARAM, 'bounded: number of pieces N <= 3 (quick) / 4 (thorough)',
+                    'that each concrete piece type integrates to an antiderivative through its knot is C07 (polynomials) and C09 (log-polynomials)',
+                    'the recording piece uses exactly representable small integers for ordinates so that the chain relation is exact'],
+}
+
+
+def c12_set(names):
+    f = ['src/piecewise.rs: Piecewise::evaluate_v']
+    return [H(n, 'piecewise', 'segments N, arguments K = ' + n.split('_', 1)[1], False, f) for n in names]
+
+
+PROPS['C12'] = {
+    'verus': [],
+    'kani': {'quick': [kset('c12', c12_set(['c12_n1_k3', 'c12_n2_k3', 'c12_n3_k3']))],
+             'thorough': [kset('c12', c12_set(['c12_n1_k3', 'c12_n2_k3', 'c12_n3_k3', 'c12_n4_k3', 'c12_n3_k4', 'c12_n4_k4']), timeout=6000)]},
+    'probe': False,
+    'level': 'model_checking',
+    'explanation': 'Kani harness on the real evaluate_v with recording Tag pieces and a counting input iterator: for sorted non-NaN ends and any non-NaN '
+                   'argument sequence, output k is the piece direct evaluation selects for the running maximum, evaluated at argument k itself, produced '
+                   'after exactly k+1 inputs were pulled; for non-decreasing arguments that piece is the one pointwise evaluation selects. Bounded in N and K '
+                   '(the cursor lives inside the returned closure, so no invariant can be attached to it).',
+    'assumptions': [PARAM, 'bounded: N <= 3 segments, K = 3 arguments (quick); N <= 4, K <= 4 (thorough)'],
+}
+
+
+def c13_set(pairs):
+    f = ['src/piecewise.rs: impl Add<&Piecewise<T>> for &Piecewise<T> :: add', 'src/piecewise.rs: impl Sub<&Piecewise<T>> for &Piecewise<T> :: sub']
+    out = []
+    for (n, m) in pairs:
+        out.append(H(f'c13_add_{n}_{m}', 'piecewise', f'operand sizes {n}+{m}', False, f[:1]))
+        out.append(H(f'c13_sub_{n}_{m}', 'piecewise', f'operand sizes {n}+{m}', False, f[1:]))
+    return out
+
+
+PROPS['C13'] = {
+    'verus': [],
+    'kani': {'quick': [kset('c13', c13_set([(1, 1), (1, 2), (2, 1), (2, 2), (1, 3), (3, 1), (2, 3), (3, 2), (3, 3)]))],
+             'thorough': [kset('c13', c13_set([(1, 1), (1, 2), (2, 1), (2, 2), (1, 3), (3, 1), (2, 3), (3, 2), (3, 3)]) +
+                               [H('c13_add_4_4', 'piecewise', 'operand sizes 4+4'), H('c13_sub_4_4', 'piecewise', 'operand sizes 4+4'),
+                                H('c13_add_2_4', 'piecewise', 'operand sizes 2+4'), H('c13_sub_4_2', 'piecewise', 'operand sizes 4+2')], timeout=10000)]},
+    'probe': False,
+    'level': 'model_checking',
+    'explanation': 'Kani harnesses on the real merge loops of &f + &g and &f - &g with pair-recording pieces: for symbolic sorted non-NaN ends of both '
+                   'operands and every non-NaN x, the result is non-empty, has non-decreasing non-NaN breakpoints each bit-equal to a breakpoint of f or g, '
+                   'has at most len(f)+len(g)-1 pieces, and the piece selected at x combines exactly the pieces of f and g selected at x. One harness per '
+                   'pair of operand sizes.',
+    'assumptions': [PARAM, 'bounded: operand sizes up to 3+3 (quick) / 4+4 (thorough)',
+                    'Verus rejects the loop (internal error on `&a.poly + &b.poly` under `&T: Add<&T>`), so no unbounded proof'],
+}
+
+
+def c15_set(ns):
+    out = []
+    fs = {'mul': 'impl Mul<f64> for Piecewise<T> :: mul', 'mulassign': 'impl MulAssign<f64> for Piecewise<T> :: mul_assign',
+          'neg': 'impl Neg for Piecewise<T> :: neg', 'translate': 'impl Translate for Piecewise<T> :: translate'}
+    for op, f in fs.items():
+        out += hs(f'c15_{op}_n', 'piecewise', ns, 'pieces N = {n}', ['src/piecewise.rs: ' + f])
+    out.append(H('c15_segment_ops', 'piecewise', None, True, ['src/piecewise.rs: Segment::{mul, mul_assign (x2), translate, derivative}']))
+    return out
+
+
+PROPS['C15'] = {
+    'verus': [],
+    'kani': {'quick': [kset('c15', c15_set([1, 2, 3]))], 'thorough': [kset('c15', c15_set([1, 2, 3, 4]))]},
+    'probe': False,
+    'level': 'other',
+    'explanation': 'Kani harnesses on the real Piecewise::{mul, mul_assign, neg, translate} and the Segment-level operations with recording OpTag pieces: '
+                   'number of pieces, order and every breakpoint (any f64 bits) unchanged; every piece received the operation exactly once with the given '
+                   'scalar and nothing else. Segment level is loop-free (complete); Piecewise level bounded in N.',
+    'assumptions': [PARAM, 'bounded: N <= 3 pieces (quick) / 4 (thorough) for the Piecewise-level loops',
+                    'that the operation on each concrete piece type acts pointwise is C14'],
+}
+
+
+def mp(name, module, what):
+    return H(name, module, None, True, [what], mustpanic=True)
+
+
+PROPS['C16'] = {
+    'verus': ['u_pwsel'],
+    'kani': {
+        'quick': [kset('c16',
+                       hs('c02_direct_n', 'piecewise', [1, 2, 3, 4], 'segments N = {n}; every f64 argument', PW_EVAL) +
+                       hs('c16_step_anyf64_n', 'piecewise', [1, 2, 3, 4], 'segments N = {n}; any state satisfying the invariant, every f64 query (NaN included)', EV_FNS[1:]) +
+                       [H('c16_hist_anyf64_n3_k3', 'piecewise', 'N = 3, 3 queries from a fresh evaluator, every f64 (NaN at any position)', False, EV_FNS),
+                        H('c16_evaluate_v_anyf64_n3_k3', 'piecewise', 'N = 3, 3 arguments, every f64', False, ['src/piecewise.rs: Piecewise::evaluate_v']),
+                        H('c13_add_2_2', 'piecewise', 'operand sizes 2+2 (no panic on finite well-formed operands)'),
+                        H('c13_sub_2_2', 'piecewise', 'operand sizes 2+2 (no panic on finite well-formed operands)'),
+                        H('c13_add_1_2', 'piecewise', 'operand sizes 1+2'), H('c13_sub_2_1', 'piecewise', 'operand sizes 2+1'),
+                        mp('c16_direct_empty_mustpanic', 'piecewise', 'documented rejection: empty piecewise function (evaluate)'),
+                        mp('c16_evaluator_empty_mustpanic', 'piecewise', 'documented rejection: empty piecewise function (PiecewiseEvaluator::new)'),
+                        mp('c16_evaluate_v_empty_mustpanic', 'piecewise', 'documented rejection: empty piecewise function (evaluate_v)'),
+                        mp('c16_add_nan_end_mustpanic', 'piecewise', 'documented rejection: NaN breakpoint in +')])],
+    },
+    'probe': False,
+    'level': 'other',
+    'explanation': 'Panic-freedom is an obligation of every unit: Verus proves that the assert! in Piecewise::evaluate cannot fire and that indexing/unwrap are safe for '
+                   'every f64 argument and any number of segments; Kani checks bounds, unwrap, overflow and assert! in the harnesses with UNCONSTRAINED f64 queries '
+                   '(NaN, infinities) for direct evaluation, the stateful evaluator (inductive step from any invariant-satisfying state plus 3-query histories) and '
+                   'evaluate_v. NaN clause: after any query, NaN included, the evaluator invariant still holds and every non-NaN query is answered like direct '
+                   'evaluation. The documented rejections are the only should_panic harnesses.',
+    'assumptions': [PARAM, FM_ORD, 'bounded: N <= 4 segments for the Kani part; history length unbounded via the inductive invariant',
+                    'panic-freedom of the numeric kernels on finite input is discharged by the Verus units of C01, C04, C06, C07, C08, C09, C14 and the Kani harnesses of the other properties; '
+                    'this check re-runs only the evaluation entry points and the documented rejections'],
+}
+PROPS['C16']['kani']['thorough'] = PROPS['C16']['kani']['quick']
 
 
 def scan_assumptions(units):
